@@ -193,8 +193,12 @@ CONFIG = {
                  {"name": "probe", "test": "TestC04Probe", "checks": {"quick": 160, "thorough": 4000}, "shards": {"quick": 8, "thorough": 16}, "shrinktime": "10s"}],
     },
     "C05": {
-        "rule": BUF_MODEL + "non-trivial = a waking event (Put / cancel / Close) issued while a Get was observed blocked at quiescence; distinct = hash of the executed op trace." + WAITCOND_RULE,
-        "jobs": [buffree("C05", 12000, 600000), bufstep("C05", 24000, 800000), waitcond("C05", 12000, 400000)],
+        "rule": BUF_MODEL + "non-trivial = a waking event (Put / cancel / Close) issued while a Get was observed blocked at quiescence; distinct = hash of the executed op trace." + WAITCOND_RULE + BUF_FREE +
+                " Plus a gate probe using the verif instrumentation points inside a bubble: Get's async waiter or a direct WaitCond call is stopped between predicate and park, the "
+                "waking event (cancel / Put / Close / set+Broadcast) is issued inside that window (optionally after the cancellation watcher reached its wake-up point, then 0-200 yields), "
+                "then the gate opens; at quiescence the waiter must have returned with the right outcome; non-trivial = the gate was hit.",
+        "jobs": [buffree("C05", 12000, 600000), bufstep("C05", 24000, 800000), waitcond("C05", 12000, 400000),
+                 {"name": "probe", "test": "TestC05Probe", "checks": {"quick": 8000, "thorough": 200000}, "shards": {"quick": 4, "thorough": 16}}],
     },
     "C12": {
         "rule": BUF_MODEL + "non-trivial = a Close launched while another op on the handle was in flight or uncommitted reads existed AND >=2 handles closed in non-creation order; distinct = hash of the executed op trace. " + CHAN_MODEL + WAITCOND_RULE,
